@@ -107,7 +107,11 @@ def case(ctx, i, rec):
     b = pairs.run(ts_b, "inside_outside", kw)
     ts_e, id_e = zoo.renumber(ts, rng, perm=perm_with_last(last))
     e = pairs.run(ts_e, "inside_outside", kw)
-    for name, o in (("c", c), ("d", d), ("b", b), ("e", e)):
+    # ... and a second numbering that shares the free renumbering's last-id node (usually not a root)
+    last_b = int(np.flatnonzero(id_b == ts.num_nodes - 1)[0])
+    ts_g, id_g = zoo.renumber(ts, rng, perm=perm_with_last(last_b))
+    g = pairs.run(ts_g, "inside_outside", kw)
+    for name, o in (("c", c), ("d", d), ("b", b), ("e", e), ("g", g)):
         if o.exc is not None:
             rec.violation("renumbered-run-raised", f"renumbered input ({name}) raised {common.exc_key(o.exc)}")
             return
@@ -131,6 +135,13 @@ def case(ctx, i, rec):
     if d_ae > 1e-9:
         rec.violation("depends-on-numbering-beyond-which-node-is-last",
                       f"two numberings with the same node in the last id differ by {d_ae:.3g}", dev=d_ae)
+    d_bg = dev(b, id_b, g, id_g)
+    rec.maxi("dev_between_numberings_sharing_a_non_root_last_id_node", d_bg)
+    if last_b != root:
+        rec.count("pairs_sharing_a_last_id_node_that_is_not_the_oldest_root")
+    if d_bg > 1e-9:
+        rec.violation("depends-on-numbering-beyond-which-node-is-last",
+                      f"two numberings that give the last id to the same node ({last_b}, oldest root is {root}) differ by {d_bg:.3g}", dev=d_bg)
     for name, o, idx in (("input", a, np.arange(ts.num_nodes)), ("renumbered", b, id_b)):
         root_is_last = idx[root] == ts.num_nodes - 1
         dv = dev(o, idx, c, id_c)
